@@ -18,6 +18,11 @@ pub enum BOp {
     Prefix(&'static str),
     Style(usize),
     StyleRoundTrip,
+    /// a wrapped iterator of three items driven to exhaustion (finishes the bar per its finish behaviour)
+    WrapIter3,
+    /// keep a copy of the bar's current style (pb.style()) / install the copy kept last (no-op without one)
+    StyleSave,
+    StyleRestore,
     TabWidth(usize),
     Println(&'static str),
     SuspendEmpty,
@@ -81,6 +86,11 @@ pub fn apply(pb: &ProgressBar, op: &BOp) {
         BOp::Prefix(p) => pb.set_prefix(*p),
         BOp::Style(i) => pb.set_style(style(*i)),
         BOp::StyleRoundTrip => pb.set_style(pb.style().template(TEMPLATES[3]).unwrap()),
+        BOp::WrapIter3 => {
+            for _ in pb.wrap_iter(0..3) {}
+        }
+        // handled by the engines that keep the copy (C16)
+        BOp::StyleSave | BOp::StyleRestore => {}
         BOp::TabWidth(w) => pb.set_tab_width(*w),
         BOp::Println(t) => pb.println(*t),
         BOp::SuspendEmpty => pb.suspend(|| ()),
@@ -200,6 +210,15 @@ impl RefState {
                 let f = self.on_finish;
                 self.fin(f);
             }
+            BOp::StyleSave | BOp::StyleRestore => {}
+            BOp::WrapIter3 => {
+                self.pos = self.pos.wrapping_add(3);
+                // exhausting the iterator finishes a bar that is not finished yet
+                if !self.finished {
+                    let f = self.on_finish;
+                    self.fin(f);
+                }
+            }
         }
     }
 
@@ -221,6 +240,6 @@ impl RefState {
     }
 
     pub fn draws(op: &BOp) -> bool {
-        !matches!(op, BOp::Style(_) | BOp::StyleRoundTrip | BOp::ResetEta | BOp::ResetElapsed)
+        !matches!(op, BOp::Style(_) | BOp::StyleRoundTrip | BOp::ResetEta | BOp::ResetElapsed | BOp::StyleSave | BOp::StyleRestore)
     }
 }
